@@ -74,6 +74,8 @@ type Facts struct {
 	MapRanges     []Site            `json:"map_ranges"`
 	Sorts         []Site            `json:"sorts"`
 	SharedState   []Site            `json:"shared_state_access"`
+	ApiShared     []Site            `json:"api_shared_state_access"`
+	GoStmts       []Site            `json:"go_statements"`
 	TimeNow       []Site            `json:"time_now"`
 	Missing       []string          `json:"missing"`
 }
